@@ -4,6 +4,7 @@ C07 — format of the published ranges and their relation to the declared ones (
 -/
 import Rooc.Proofs.BoundsFormat
 import Rooc.Proofs.BoundsProper
+import Rooc.Proofs.BoundsMono
 import Rooc.Props.C07
 namespace Rooc.Props.C07
 open Rooc Rooc.BoundsSem Rooc.BoundsProofs Rooc.LinP
@@ -115,6 +116,25 @@ theorem derived_range_within_declared (domain : List (DomVar (Ext K))) (cs : Lis
     (hx : Mem x (Analyzer.varBounds (Analyzer.analyze domain cs tol maxSteps).variableBounds name)) :
     Mem x (Analyzer.varBounds (Analyzer.fromDomain domain tol).variableBounds name) :=
   ((analyze_shr domain cs tol maxSteps).2.1 hnn).2 name x hx
+
+/-- **The forward arithmetic is isotone.**  A tighter box (end-point-wise inside `vb'`, every interval ordered) gives a
+tighter range for every expression with finite literals — `+ - * /` by constants, `abs`, `min`, `max`, logic.  So the
+non-monotonicity of the analysis as a whole (`monotonicity_counterexample_freeze`, `…_step_limit`) comes from the
+freeze, the step limit and the tolerance gates, not from the interval arithmetic. -/
+theorem boundsOf_isotone (vb vb' : List (String × Bounds (Ext K))) (e : Exp (Ext K))
+    (hsub : ∀ name, Sub (Analyzer.varBounds vb name) (Analyzer.varBounds vb' name))
+    (hord : ∀ name, Ord (Analyzer.varBounds vb name)) (hlit : BoundsSem.finiteLits e = true) :
+    Ext.le (Analyzer.boundsOf vb' e).lower (Analyzer.boundsOf vb e).lower = true ∧
+    Ext.le (Analyzer.boundsOf vb e).upper (Analyzer.boundsOf vb' e).upper = true :=
+  boundsOf_mono vb vb' hsub hord e hlit
+
+example : ∃ (vb vb' : List (String × Bounds (Ext K))),
+    (∀ name, Sub (Analyzer.varBounds vb name) (Analyzer.varBounds vb' name)) ∧ (∀ name, Ord (Analyzer.varBounds vb name)) :=
+  ⟨[("x", ⟨.fin 1, .fin 2⟩)], [("x", ⟨.fin 0, .pinf⟩)], by
+    intro n
+    by_cases h : "x" = n <;> simp [Analyzer.varBounds, AList.get?, h, Sub, Bounds.unbounded, Ext.le], by
+    intro n
+    by_cases h : "x" = n <;> simp [Analyzer.varBounds, AList.get?, h, Ord, Bounds.unbounded, Ext.le]⟩
 
 /-- **The domain written into the compiled model contains every source-feasible point** — the form C01's
 composition consumes (`Rooc.LinP.sound_pipeline` is this statement for `Compile.linearize`): for the analyzer
